@@ -65,6 +65,14 @@ def classify_source(o, msg):
       position is ignored); tflite_model_semantic._get_slice_offsets indexes them by *input* dimension, so with a new axis
       that is not the last entry the slice read by the consumer is a different one."""
     tags = o.get("src_tags") or []
+    # round 5 (rank sweep; repairs pending, keys open while the patch still applies forward - harness/pending.py)
+    window = re.search(r"IFM2?: bytes? |touches byte|expected tensor", msg)
+    if "unpack-negative-axis" in tags and window:
+        return "unpack-negative-axis-read-window-misplaced"
+    if "slice-size-minus-one" in tags and window:
+        return "slice-size-minus-one-read-window-misplaced"
+    if "fc-keep-num-dims-rank4-batch>1" in tags and re.search(r"expected tensor", msg):
+        return "fc-keep-num-dims-rank4-result-rows-not-written"
     if "npu-box-batch>1" in tags and re.search(r"(step \d+ CPU \S+|op \d+ IFM2?): byte \d+ of region \d+: expected tensor", msg):
         return "accelerated-box-with-batch>1-only-batch-0-processed"
     if "strided-slice-new-axis-not-trailing" in tags and re.search(r"op \d+ IFM: byte", msg):
